@@ -141,7 +141,7 @@ Lemma model_words_accepted o ps js es :
   model_words o ps js = Some (Some es) -> check_words o (hist_after [] ps) js es = true.
 Proof.
   unfold model_words, offset_in_domain. intros E.
-  destruct ((0 <=? o) && (o <=? BIG) && (o mod 64 =? 0)) eqn:D; [|discriminate].
+  destruct ((- BIG <=? o) && (o <=? BIG) && (o mod 64 =? 0)) eqn:D; [|discriminate].
   apply andb_true_iff in D. destruct D as [_ D]. apply Z.eqb_eq in D.
   destruct (run_proto_state (NewTailBitmap o) ps) as [| |s] eqn:R; try discriminate.
   destruct (forallb (words_in_domain s) js) eqn:F; [|discriminate].
